@@ -77,6 +77,16 @@ def cases(rng, tier):
             nm = rng.choice(pool_names[:rng.range(2, len(pool_names))])
             ls.append([nm, rng.below(6), [rng.choice(refpool) for _ in range(rng.below(4))], rng.below(2)])
         out.append([apps, rng.below(6), root_refs, ls])
+    # long runs of one character in a logger name (any counter the name check keeps must not wrap): runs of
+    # 254..258, 510..514 and 65534..65538 colons / letters, leading, trailing and in the middle
+    runs = [254, 255, 256, 257, 258, 510, 511, 512, 513, 514] + ([65534, 65535, 65536, 65537, 65538] if tier != "quick" else [65536, 65538])
+    for n in runs:
+        # (names of many SEGMENTS stay below 300 segments: ConfiguredLogger::add / max_log_level / drop recurse once
+        #  per segment, and a name of ~30000 segments overflows the stack - a resource limit outside the property's
+        #  "names up to a length bound", noted in DESIGN 12.2, not a check of this property)
+        deep = ["::".join(["s"] * (n // 2)), "::".join(["s"] * (n // 2)) + ":"] if n <= 514 else []
+        for nm in [":" * n, "a" + ":" * n, ":" * n + "a", "a" + ":" * n + "b", "a::b" + ":" * n, "a" * n, "a" * n + "::" + "b" * n] + deep:
+            out.append([["p"], 3, ["p"], [[nm, 4, ["p"], 1], ["ok", 2, [], 0]]])
     # confusable appender names / references (exact comparison is what Logger::new relies on)
     fam = CONF_APPS if tier != "quick" else CONF_APPS[:16] + CONF_APPS[18:20]
     for i, x in enumerate(fam):
